@@ -184,11 +184,25 @@ def compare(acc, c, r, case, site, identical):
     acc.outcome("roundtrip-ok")
 
 
-def check(acc, desc, behavioral, site="circuits", via_file=False):
+def check(acc, desc, behavioral, site="circuits", via_file=False, variant=None):
+    """variant: None | "rev" (nodes inserted in reverse order) | "hist" (the same circuit object is written and read
+    back once BEFORE one of its gates gets its final type in place; the round trip after the edit is judged)."""
     import circuitgraph as cg
 
-    case = {"kind": "roundtrip", "desc": desc, "behavioral": behavioral, "site": site, "via_file": via_file}
-    c = space.build(desc)
+    case = {"kind": "roundtrip", "desc": desc, "behavioral": behavioral, "site": site, "via_file": via_file, "variant": variant}
+    if variant == "hist":
+        c, finish = space.build_pre(desc)
+        if c is None:
+            return
+        try:
+            t0 = cg.io.circuit_to_verilog(c, behavioral=behavioral)
+            cg.io.verilog_to_circuit(t0, c.name, blackboxes=bb_objects())
+        except Exception as e:  # noqa: BLE001
+            acc.violation(site, f"roundtrip-before-edit-raises:{common.exc_name(e)}", case, repr(e)[:300])
+            return
+        finish()
+    else:
+        c = space.build(desc, order=variant)
     has_const = any(c.graph.nodes[n]["type"] in ("0", "1", "x") for n in c.graph.nodes)
     acc.transitions += 1
     if via_file:
@@ -231,6 +245,10 @@ def run(job):
                 acc.states += 1
                 acc.nontrivial += 1
                 check(acc, desc, beh)
+                if (_idx // job["of"]) % 6 == 0:
+                    acc.states += 2
+                    check(acc, desc, beh, variant="rev")
+                    check(acc, desc, beh, variant="hist")
             acc.sample({"desc": desc})
             if acc.out_of_time():
                 break
@@ -240,6 +258,9 @@ def run(job):
                 acc.states += 1
                 acc.nontrivial += 1
                 check(acc, desc, beh, site="bb")
+                acc.states += 2
+                check(acc, desc, beh, site="bb", variant="rev")
+                check(acc, desc, beh, site="bb", variant="hist")
             acc.sample({"desc": desc})
     else:
         k = 0
@@ -256,5 +277,6 @@ def run(job):
 def replay(case, job):
     common.setup_paths()
     acc = Acc(job)
-    check(acc, case["desc"], case["behavioral"], site=case.get("site", "circuits"), via_file=case.get("via_file", False))
+    check(acc, case["desc"], case["behavioral"], site=case.get("site", "circuits"), via_file=case.get("via_file", False),
+          variant=case.get("variant"))
     return acc.result()
